@@ -2,6 +2,7 @@
 // stateful multi-iterator client checked against an ordered-map model.
 // Serves C01 C02 C03 C08 C09 C10 C11.
 #include "common.h"
+#include "mergelib.h"
 #include <algorithm>
 #include <functional>
 #include "tablelib.h"
@@ -223,6 +224,7 @@ static Plan gen_table(const std::string &prop, const std::string &tier, uint64_t
 		}
 	} else if (prop == "C08") {
 		gen_writer_cfg(p, r, true, false, true);
+		p.seti("feed", r.chance(1, 5) ? 1 : 0);	// 1: through mtbl_source_write from a user-defined source
 		p.set("sched", sched_cfg_gen(r, 600));
 		p.seti("bsize", 1024);
 		p.set("bsize_set", "1");
@@ -363,6 +365,28 @@ bool tablelib_write(const Plan &p, RunResult &res, const std::string &path, Tabl
 
 	Bytes last; bool any = false;
 	size_t opi = 0, refused = 0;
+	if (check_gate && p.geti("feed", 0) == 1) {
+		// the writer is fed by mtbl_source_write() from a user-defined source that yields the plan's adds in plan order
+		// (sorted or not): the gate must act on every entry exactly as for direct adds, i.e. the copy stops at the
+		// first key that is not greater than its predecessor, reports failure, and the file holds what came before
+		USource us;
+		for (auto &o : adds) us.ents.push_back({ o.argb(0), o.argb(1) });
+		mtbl_source *src = usource_make(&us);
+		mtbl_res r = mtbl_source_write(src, w);
+		size_t f = 0;
+		for (; f < us.ents.size(); f++) {
+			if (any && mfmt::cmp(us.ents[f].first, last) <= 0) break;
+			model[us.ents[f].first] = us.ents[f].second; last = us.ents[f].first; any = true;
+		}
+		bool expect_ok = f == us.ents.size();
+		res.ev.u(r == mtbl_res_success);
+		res.probes["writer-fed-by-mtbl_source_write"]++;
+		if ((r == mtbl_res_success) != expect_ok)
+			res.fail("MODEL", expect_ok ? "GATE-refused" : "GATE-accepted", std::string("mtbl_source_write ") + (expect_ok ? "failed on a strictly increasing source" : "reported success although entry #" + std::to_string(f) + " (key " + short_repr(us.ents[f].first) + ") is not greater than its predecessor " + short_repr(last)));
+		if (!expect_ok) refused = 1;
+		mtbl_source_destroy(&src);
+		if (us.live_iters != 0) res.fail("MODEL", "ITER-LEAK", "mtbl_source_write left an iterator of the source alive");
+	} else
 	for (auto &o : adds) {
 		Bytes k = o.argb(0), v = o.argb(1);
 		mtbl_res r = mtbl_writer_add(w, (const uint8_t *)k.data(), k.size(), (const uint8_t *)v.data(), v.size());
